@@ -808,7 +808,7 @@ def rule_args_blanks(model):
                           'before the terminator) is an else continuation '
                           'in one syntax and a new start tag (ParseError) '
                           'in the other', node=node, ctx=fi)
-    r.require_floor(6)
+    r.require_floor(3)
     return r
 
 
